@@ -705,7 +705,7 @@ def drive(ctx, exe, scripts, tag):
 
 
 def run(ctx):
-    os.environ["JAVA_TOOL_OPTIONS"] = c09.JAVA_ENV["JAVA_TOOL_OPTIONS"]
+    os.environ.update(c09.JAVA_ENV)
     exe = x_c09.harness(ctx, wrap=True)
     model_check(ctx)
     log("model checking done %.0fs" % (time.time() - ctx.t0))
